@@ -31,6 +31,16 @@ def c02(tier, seed, work):
     tour_stage(rep, work, "single-2k", "MC_Store",
                store_consts(CfgName="single", OpNames=CORE_OPS - {"ListBuckets"}),
                ["singlemem", "singleos"], **st)
+    # beyond the listed operations: forced bucket deletion (x-minio-force-delete) and conditional reads (If-None-Match)
+    tour_stage(rep, work, "force-delete-cond-get", "MC_Store",
+               store_consts(Buckets={"bkt1"}, Bodies={"x1", "x2"},
+                            OpNames={"CreateBucket", "DeleteBucket", "ForceDelete", "PutObject", "DeleteObject", "GetObject",
+                                     "CondGet", "ListBuckets"}),
+               ALL4, **st)
+    tour_stage(rep, work, "single-force-delete", "MC_Store",
+               store_consts(CfgName="single", Buckets={"bkt1"}, Bodies={"x1"},
+                            OpNames={"DeleteBucket", "ForceDelete", "PutObject", "DeleteObject", "GetObject", "ListObjects"}),
+               ["singlemem", "singleos"], **st)
     # empty bodies and the browser-form upload path
     tour_stage(rep, work, "post-empty", "MC_Store",
                store_consts(Buckets={"bkt1"}, Bodies={"x1"}, WithEmpty=True,
@@ -109,7 +119,7 @@ def c05(tier, seed, work):
 
 def list_consts(**kw):
     c = dict(Alphabet={45, 47, 97, 98}, MaxLen=3, MaxSet=2, PrefixLen=2, Delims={0, 47, 45, 97}, FsDomain=False,
-             CfgName="plain", Shard=0, Shards=1, Markers=False)
+             CfgName="plain", Shard=0, Shards=1, Markers=False, EmptySegs=False)
     c.update(kw)
     return c
 
@@ -121,6 +131,10 @@ def c03(tier, seed, work):
     # key-value backends: every key set x prefix x delimiter in {none,'/','-','a'} x V1/V2
     tour_stage(rep, work, "kv", "MC_List", list_consts(MaxSet=n), ["mem", "bolt"],
                invariants=["EmitInv", "ListExact"], **common)
+    # keys with an empty segment (a//b): legal on the key-value backends; prefixes up to a//
+    tour_stage(rep, work, "kv-empty-segments", "MC_List",
+               list_consts(Alphabet={47, 97, 98}, MaxLen=4, MaxSet=2, PrefixLen=3, Delims={0, 47}, EmptySegs=True),
+               ["mem", "bolt"], invariants=["EmitInv", "ListExact"], **common)
     # fs backends: key sets inside the fs key domain, delimiter none or '/'
     tour_stage(rep, work, "fs", "MC_List", list_consts(MaxSet=n, FsDomain=True, Delims={0, 47}),
                ["multimem", "multios"], invariants=["EmitInv"], **common)
@@ -155,7 +169,7 @@ def c04(tier, seed, work):
     # single pages under arbitrary markers (present, absent, inside a common prefix, beyond the end):
     # keys after the marker exactly; a common prefix the marker falls inside is optional
     tour_stage(rep, work, "mem-markers", "MC_List",
-               list_consts(MaxSet=2, MaxLen=3 if tier == "thorough" else 2, PrefixLen=1, Delims={0, 47}, CfgName="mem", Markers=True),
+               list_consts(MaxSet=3 if tier == "thorough" else 2, MaxLen=3, PrefixLen=1, Delims={0, 47}, CfgName="mem", Markers=True),
                ["mem"], invariants=["EmitInv"], view=None, emit=None, tlc_workers=8)
     # fallback path of the non-paginating backends: complete listing, IsTruncated=false
     walk_stage(rep, work, "fallback-walks", "MC_List",
@@ -454,6 +468,14 @@ def c15(tier, seed, work):
     tour_stage(rep, work, "reopen-rich-empty", "MC_Store",
                store_consts(Buckets={"bkt1"}, WithEmpty=True, OpNames=CORE_OPS | {"PutMetaB", "PostObject"}),
                ["bolt", "multios"], opts="boltsync", keys="rich", reopen=True, **st)
+    # keys spelled with the bytes of their bucket's name (b, bkt1, 1/t), with metadata
+    tour_stage(rep, work, "reopen-bucket-named-keys", "MC_Store",
+               store_consts(Buckets={"bkt1"}, KeySetName="bname", Bodies={"x1"}, OpNames=CORE_OPS | {"PutMetaB"}),
+               ["bolt", "multios"], opts="boltsync", reopen=True, **st)
+    tour_stage(rep, work, "reopen-bucket-named-keys-single", "MC_Store",
+               store_consts(Buckets={"bkt1"}, KeySetName="bname", Bodies={"x1"}, CfgName="single",
+                            OpNames=(CORE_OPS | {"PutMetaB"}) - {"ListBuckets"}),
+               ["singleos"], reopen=True, **st)
     # crash points: every mutating transition killed at each of its mutating file-system calls
     crash_stage(rep, work, "crash-multi", store_consts(Buckets={"bkt1"}, OpNames=CORE_OPS - {"ListBuckets", "HeadBucket"}),
                 ["multimem", "multios"])
@@ -479,6 +501,10 @@ def c07(tier, seed, work):
     # 2-4 clients on 2 keys (incl. versioned buckets and multipart on s3mem) + every slow-uploader / slow-reader
     # scenario; exact (breadth-first) linearizability check of every history
     conc_stage(rep, work, "small-exact", allsys, [2, 3, 4], runs=6 if thorough else 3, ops=12, keys=2, gated=True)
+    # a part uploaded again (large body: looked up, hashed for milliseconds, stored) while a completion naming the old
+    # ETags validates and assembles: sweep over the relative start of the two requests
+    conc_stage(rep, work, "part-reupload-vs-complete", allsys if thorough else ["mem", "multimem"], [2], runs=0, ops=0, keys=1,
+               gated=False, partrace=64 if thorough else 40)
     # the same under the Go race detector with more clients; first-witness (depth-first) search
     conc_stage(rep, work, "race-6-8", ["mem", "bolt", "multimem"], [6, 8], runs=3 if thorough else 2, ops=8, keys=3,
                gated=False, race=True, witness=True)
@@ -508,6 +534,8 @@ def c09(tier, seed, work):
     fuzz_stage(rep, work, "grammar-options", g, ["mem"], ["rich"], opts="hostbucket", every=ev * 2)
     fuzz_stage(rep, work, "grammar-auto", g, ["mem", "multimem"], ["plain"], opts="auto", every=ev * 2)
     fuzz_stage(rep, work, "grammar-noversioning", g, ["mem"], ["rich"], opts="noversioning", every=ev * 2)
+    # with the time-skew limit in force (requests carrying a far-off or malformed x-amz-date)
+    fuzz_stage(rep, work, "grammar-skew", g, ["mem"], ["rich"], opts="skew", every=ev * 2)
     if thorough:
         fuzz_stage(rep, work, "grammar-os", g, ["multios", "singlemem"], ["rich"], every=2)
     rep.assumptions += [
